@@ -29,6 +29,16 @@ func nastyName(rnd *rand.Rand) string {
 func c17ValidConfig(rnd *rand.Rand, origins []string, ports []int, nasty bool) *config.PikeConfig {
 	name := func(prefix string, i int) string {
 		if nasty && rnd.Intn(2) == 0 {
+			// the index keeps names distinct; where it goes decides whether leading/trailing characters
+			// of the nasty value (white space, quotes, YAML indicators) stay leading/trailing
+			switch rnd.Intn(4) {
+			case 0:
+				return fmt.Sprint(i) + nastyName(rnd)
+			case 1:
+				return []string{" ", "  ", "\t"}[rnd.Intn(3)] + prefix + fmt.Sprint(i)
+			case 2:
+				return prefix + fmt.Sprint(i) + []string{" ", "  ", "\t"}[rnd.Intn(3)]
+			}
 			return nastyName(rnd) + fmt.Sprint(i)
 		}
 		return fmt.Sprintf("%s%d", prefix, i)
